@@ -19,10 +19,11 @@ CASE_TIMEOUT = 3000
 RULE = ("one fitted model per case (every family/profile; baselines of 365 days covering every calendar month and weekday, asserted by the generator) x "
         "reporting spans (week, month incl. a DST change, partial year, year) x alterations of the observed column {x0.1, x10, shuffled, 30% NaN, "
         "all NaN, absent, zeros, negative}.  distinct_nontrivial = distinct (family, span, alteration) pairs whose two runs share at least one predicted row.")
-ASSUMPTIONS = ["compared on the intersection of rows where both runs produced a finite prediction (a day without usage gets no prediction: C07)",
+ASSUMPTIONS = ["values compared on the intersection of rows where both runs produced a finite prediction; which rows get a prediction is compared too: everywhere for the "
+               "hourly families, on days with usable usage in both runs for the daily family (a day without usage gets no prediction: C07), not for billing",
                "billing: the observed column is altered on the billing reads; the same read calendar is kept"]
 REQUIRED_REACH = {"pair.compared": 60, "pair.rows": 5000, "baseline.covers_all_months_and_weekdays": 6, "alteration.absent": 6, "alteration.all_nan": 6,
-                  "span.with_dst_change": 4, "span.with_weather_gaps": 4}
+                  "span.with_dst_change": 4, "span.with_weather_gaps": 4, "pair.presence_compared": 40, "pair.presence_rows": 5000}
 
 VIOL = []
 
@@ -125,7 +126,33 @@ def run_case(spec):
                 continue
             common = ref.index.intersection(got.index)
             a, b = ref.loc[common], got.loc[common]
-            both = np.isfinite(a["predicted"].to_numpy(dtype=float)) & np.isfinite(b["predicted"].to_numpy(dtype=float))
+            fa, fb = np.isfinite(a["predicted"].to_numpy(dtype=float)), np.isfinite(b["predicted"].to_numpy(dtype=float))
+            both = fa & fb
+            # which predictions are produced: the hourly families predict every supplied hour whatever the usage column holds; the
+            # daily family predicts a day iff it has usable usage (C07), so presence is compared on the days whose usage is usable
+            # (finite, or the column absent) in both runs.  Billing presence follows the read calendar and is left to C07/C19.
+            if fam.kind in ("hourly", "caltrack", "daily"):
+                if fam.kind == "daily":
+                    def usable(frame):
+                        if "observed" not in frame.columns:
+                            return pd.Series(True, index=frame.index)
+                        o_ = frame["observed"].to_numpy(dtype=float)
+                        return pd.Series(np.isfinite(o_) & (o_ != 0), index=frame.index)      # electricity data: a zero read is a missing read
+                    ua, ub = usable(base).reindex(common), usable(alt).reindex(common)
+                    where = (ua.fillna(False) & ub.fillna(False)).to_numpy(dtype=bool)
+                else:
+                    where = np.ones(len(common), dtype=bool)
+                    if len(ref.index) != len(got.index) or not ref.index.equals(got.index):
+                        add("prediction-rows-depend-on-reporting-usage:%s:%s" % (fam.kind, how),
+                            "%s set: %d rows predicted with the supplied usage, %d with observed %s" % (sname, len(ref), len(got), how), family=spec["family"], span=sname, alteration=how)
+                I.reach("pair.presence_compared")
+                I.reach("pair.presence_rows", int(where.sum()))
+                gone = where & (fa != fb)
+                if gone.any():
+                    i = int(np.argmax(gone))
+                    add("prediction-presence-depends-on-reporting-usage:%s:%s" % (fam.kind, how),
+                        "%s set: %d hours/days have a prediction in one run and none in the other when observed is %s (first %s: %r vs %r)" % (
+                            sname, int(gone.sum()), how, common[i], a["predicted"].iloc[i], b["predicted"].iloc[i]), family=spec["family"], span=sname, alteration=how)
             I.reach("pair.compared")
             I.reach("pair.rows", int(both.sum()))
             n_pairs += 1
